@@ -108,3 +108,14 @@ Theorem C13_interface_matches_methods :
 Proof. exact (@iface_getters_methods). Qed.
 Print Assumptions C13_interface_matches_methods.
 
+(** ---- end to end (Proofs/E2EProofs.v): one getter entry per declared service, with the declared name, the declared type and the must
+    flag of the documented rule; the rendered method names follow ---- *)
+From GV Require Import Base.Str Base.Sort Model.Env Model.Input Model.Merge Model.Imports Model.Compile Model.Runner Runtime.RT Runtime.Load Proofs.RefsProofs Proofs.E2EProofs.
+From Coq Require Import List ZArith.
+Import ListNotations.
+Theorem C13_compiled_getters_are_the_declared_ones : forall (E : env),
+  w_compiler_steps E = [CValidate; CMeta; CParams; CServices; CDecorators] ->
+  forall B i o c, compile E B i = ((o, None), c) ->
+  Forall2 (declared_getter E (i_meta i) (cs_imports c)) (sorted_entries (i_services i)) (o_services o).
+Proof. exact e2e_getters. Qed.
+Print Assumptions C13_compiled_getters_are_the_declared_ones.
